@@ -53,6 +53,53 @@ theorem collect_branch_list (ts : List BranchTree) (hnd : ∀ t ∈ ts, (t.entri
 theorem collect_branches_nonempty (ts : List BranchTree) : ∀ d ∈ collectAll ts, d.branches ≠ [] :=
   nonempty_collectAll ts
 
+/-- **C14 as evaluated by the driver** — when every tree has distinct paths and the indexed branches have distinct
+    names, the map built by the tree walks passes the executable statement `checkDocs` -/
+theorem C14_checkDocs (ts : List BranchTree) (hnd : ∀ t ∈ ts, (t.entries.map (·.path)).Nodup)
+    (hnames : (ts.map (·.name)).Nodup) : checkDocs ts (collectAll ts) = true := by
+  have hk := (collect_exact ts).1
+  have hex := (collect_exact ts).2
+  have hbl : ∀ d ∈ collectAll ts, d.branches = (ts.filter (·.contains d.path d.blob)).map (·.name) := by
+    intro d hd
+    rw [← branchesOf_of_mem _ hk d hd, collect_branch_list ts hnd]
+  have hsub : ∀ (p : Path) (x : Blob), ((ts.filter (·.contains p x)).map (·.name)).Nodup := by
+    intro p x
+    exact (List.filter_sublist.map _).nodup hnames
+  unfold checkDocs
+  simp only [Bool.and_eq_true, List.all_eq_true, beq_iff_eq, Bool.or_eq_true, Bool.not_eq_true',
+    List.any_eq_true, List.contains_eq_mem, decide_eq_true_eq]
+  refine ⟨⟨?_, ?_⟩, ?_⟩
+  · intro d hd
+    exact countP_key_eq_one _ hk d hd
+  · intro d hd
+    refine ⟨⟨?_, ?_⟩, ?_⟩
+    · have := collect_branches_nonempty ts d hd
+      cases h : d.branches with
+      | nil => exact absurd h this
+      | cons _ _ => rfl
+    · intro b hb
+      refine ⟨?_, ?_⟩
+      · rw [hbl d hd] at hb ⊢
+        have h1 := List.nodup_iff_count.mp (hsub d.path d.blob) b
+        have h2 := List.count_pos_iff.mpr hb
+        omega
+      · rw [hbl d hd] at hb
+        obtain ⟨t, ht, rfl⟩ := List.mem_map.mp hb
+        obtain ⟨ht1, ht2⟩ := List.mem_filter.mp ht
+        exact ⟨t, ht1, rfl, ht2⟩
+    · intro t ht
+      by_cases hc : t.contains d.path d.blob = true
+      · right
+        rw [hbl d hd]
+        exact List.mem_map.mpr ⟨t, List.mem_filter.mpr ⟨ht, hc⟩, rfl⟩
+      · left; simpa using hc
+  · intro t ht e he
+    by_cases hc : t.contains e.path e.hash = true
+    · right
+      obtain ⟨d, hd, h1, h2, _⟩ := (hex t.name e.path e.hash).mpr ⟨t, ht, rfl, hc⟩
+      exact ⟨d, hd, h1, h2⟩
+    · left; simpa using hc
+
 /-- documents per (path, content) on a branch: exactly one, or none -/
 theorem collect_count (ts : List BranchTree) (b : Branch) (p : Path) (x : Blob) :
     cntFiles (collectAll ts) b p x = if (∃ t ∈ ts, t.name = b ∧ t.contains p x = true) then 1 else 0 := by
@@ -162,11 +209,52 @@ example :
       [false, false, false] [1, 1, 1] =
     ([⟨[120, 121, 122], .none⟩, ⟨[], .missing⟩, ⟨[], .none⟩], true) := by decide
 
+/-- **paths_agree at the level of a whole run** — for blobs that are present (each given with the header git prints
+    for it), without the size filter: the documents `indexCatfileBlobs` builds from git's stream, for any chunking,
+    are the documents `createDocument` builds from the same blobs -/
+theorem paths_agree_stream (sizeMax : Nat) (blobs : List (Bytes × Bytes)) (allows : List Bool)
+    (hlen : allows.length = blobs.length)
+    (hwf : ∀ hc ∈ blobs, (Rec.blob hc.1 hc.2).WF) (sched : List Nat) :
+    catfileDocs sizeMax ⟨stream (blobs.map fun hc => Rec.blob hc.1 hc.2), 0⟩ allows sched =
+      ((blobs.zip allows).map fun p => gogitDoc sizeMax p.2 (.present p.1.2), true) := by
+  rw [catfile_parses sizeMax _ allows (by simpa using hlen) (by
+    intro r hr
+    obtain ⟨hc, hm, rfl⟩ := List.mem_map.mp hr
+    exact hwf hc hm) sched]
+  congr 1
+  rw [List.zip_map_left, List.map_map]
+  apply List.map_congr_left
+  intro p _
+  simp [expectedDoc, gogitDoc, Function.comp]
+
 /-! ## ignore files -/
 
 /-- a pattern line without glob characters excludes exactly the paths it is a prefix of ("a trailing ** is implicit") -/
 theorem ignore_plain_is_prefix (l path : Bytes) :
     gmatch (l.map Tok.lit ++ [Tok.dstar]) path = l.isPrefixOf path :=
   gmatch_lits_dstar l path
+
+/-- `*` matches exactly the strings without a separator -/
+theorem gmatch_star (s : Bytes) : gmatch [Tok.star] s = s.all (· != sep) := by
+  induction s with
+  | nil => simp [gmatch]
+  | cons c r ih =>
+    rw [gmatch]
+    simp only [gmatch, List.isEmpty_cons, Bool.false_or, ih, List.all_cons]
+
+/-- **a plain ignore line is a path prefix**: a line that, trimmed, is non-empty, is not a comment, has no leading
+    slash and none of the characters `.][*?`, excludes exactly the paths that start with it -/
+theorem ignore_plain_line (line l path : Bytes) (ht : trimSpace line = l) (hne : l ≠ [])
+    (hc : l.head? ≠ some 35) (hs : l.head? ≠ some 47) (hg : l.any isGlobChar = false) :
+    (parseLine line).map (fun p => gmatch p path) = some (l.isPrefixOf path) := by
+  cases l with
+  | nil => exact absurd rfl hne
+  | cons a r =>
+    have ha35 : a ≠ 35 := by intro h; apply hc; simp [h]
+    have ha47 : a ≠ 47 := by intro h; apply hs; simp [h]
+    unfold parseLine
+    have : ¬ ((some a == some (35 : UInt8)) = true) := by simpa using ha35
+    simp only [ht, List.isEmpty_cons, Bool.false_eq_true, if_false, List.head?_cons, this, stripSlash_ne a r ha47,
+      hg, Option.map_some, tokens_plain _ hg, gmatch_lits_dstar]
 
 end ZoektModel.C14
